@@ -2,7 +2,9 @@ import Driver.Common
 import Log4rsModel.Routing.Spec
 /-
 C01 case:   appenders(,)  rootLevel  rootRefs(,)  loggers(, of name;level;additive;refs(|))  probes(, of target;level)
-observation: per probe (,) the sequence (;) of appender names called, `~` for none; `PANIC` if `Logger::new` panicked
+            optional 6th field failing(,): appenders whose `append` returns Err after recording the call
+observation: per probe (,) the sequence (;) of appender names called, `~` for none; `PANIC` if `Logger::new` panicked;
+             with the 6th field: per probe  calls!errors  (errors = appender names handed to the error handler, in order)
 -/
 namespace Driver.C01
 open Log4rs.Proto Log4rs.Routing Log4rs.Routing.Tree Driver
@@ -78,17 +80,26 @@ def probeTags (cfg : Config) (probes : List (Name × Nat)) : List String :=
 def signature (cfg : Config) : String :=
   "C01/" ++ (if hasImplied cfg then "implied" else if hasNested cfg then "nested" else "flat")
 
-def handle : Handler := fun cas obs =>
-  match cas, obs with
-  | [apps, rootLevel, rootRefs, loggers, probes], [implObs] =>
+/-- with failing appenders a probe's observation is `calls!errors` -/
+def renderProbeF (r : List Name × List Name) : String := renderNames r.1 ++ "!" ++ renderNames r.2
+
+def handleWith (failing : Option (List Name)) (apps rootLevel rootRefs loggers probes implObs : String) : Answer :=
     match decConfig apps rootLevel rootRefs loggers, mapM? decProbe (decList ',' probes) with
     | some cfg, some probes =>
+      let fails : Name → Bool := fun a => (failing.getD []).contains a
       let model : String :=
-        -- `deliver cfg t lvl` for every probe, building the tree once
-        match build cfg with
-        | some tree => renderDeliveries (probes.map fun p => logNode cfg.appenders (find tree (comps p.1)) p.2)
-        | none => "PANIC"
-      let spec := renderDeliveries (probes.map fun p => specDeliver cfg p.1 p.2)
+        -- `deliver cfg t lvl` / `deliverF cfg fails t lvl` for every probe, building the tree once
+        match build cfg, failing with
+        | some tree, none =>
+          renderDeliveries (probes.map fun p => logNode cfg.appenders (find tree (comps p.1)) p.2)
+        | some tree, some _ =>
+          encList "," (probes.map fun p => renderProbeF (logNodeF cfg.appenders fails (find tree (comps p.1)) p.2))
+        | none, _ => "PANIC"
+      let spec :=
+        match failing with
+        | none => renderDeliveries (probes.map fun p => specDeliver cfg p.1 p.2)
+        | some _ => encList "," (probes.map fun p =>
+            renderProbeF (specDeliver cfg p.1 p.2, specFailures cfg fails p.1 p.2))
       let verdict :=
         if !validB cfg then "FAIL:generator produced an invalid configuration;sig=C01/invalid-config"
         else if implObs = spec then "ok"
@@ -96,10 +107,29 @@ def handle : Handler := fun cas obs =>
           let implParts := decList ',' implObs
           let specParts := decList ',' spec
           let idx := ((implParts.zip specParts).takeWhile (fun (a, b) => a = b)).length
-          "FAIL:probe " ++ toString idx ++ " expected " ++ (specParts.getD idx "?") ++ " got " ++
-            (implParts.getD idx "?") ++ ";sig=" ++ signature cfg
-      { model, spec := verdict, tags := configTags cfg ++ probeTags cfg probes }
+          let e := specParts.getD idx "?"
+          let g := implParts.getD idx "?"
+          let starved := failing.isSome && (splitOnChar '!' e).head? ≠ (splitOnChar '!' g).head?
+          "FAIL:probe " ++ toString idx ++ " expected " ++ e ++ " got " ++ g ++ ";sig=" ++
+            (if starved then "C01/failing-appender-starves-others" else signature cfg)
+      let ftags := match failing with
+        | none => []
+        | some fs =>
+          (if probes.any (fun p => (specFailures cfg fails p.1 p.2).length > 0 &&
+              ((specDeliver cfg p.1 p.2).dropWhile (fun a => !fails a)).length > 1)
+            then ["failing-appender-not-last"] else []) ++
+          (if fs.isEmpty then [] else ["failing-appender"])
+      { model, spec := verdict, tags := configTags cfg ++ probeTags cfg probes ++ ftags }
     | _, _ => badCase "decode"
+
+def handle : Handler := fun cas obs =>
+  match cas, obs with
+  | [apps, rootLevel, rootRefs, loggers, probes], [implObs] =>
+    handleWith none apps rootLevel rootRefs loggers probes implObs
+  | [apps, rootLevel, rootRefs, loggers, probes, failing], [implObs] =>
+    match decNames ',' failing with
+    | some fs => handleWith (some fs) apps rootLevel rootRefs loggers probes implObs
+    | none => badCase "failing"
   | _, _ => badCase "arity"
 
 end Driver.C01
